@@ -1,8 +1,9 @@
 ID = "C10"
 LEVEL = "other"
-CONTRACT_MODULES = ["contracts.optimize", "contracts.matrixutils"]
+CONTRACT_MODULES = ["contracts.optimize", "contracts.matrixutils", "contracts.jacobian_bisect"]
 FUNCTIONS = ["MeritFunctionForMatch._clip_to_max_steps", "MeritFunctionForMatch._x_to_knobs", "MeritFunctionForMatch._knobs_to_x",
-             "JacobianSolver.step@limit-block", "Optimize.set_knobs_from_x", "MeritFunctionForMatch.__call__@knob-block", "Optimize.step@self-calls"]
+             "JacobianSolver.step@limit-block", "Optimize.set_knobs_from_x", "MeritFunctionForMatch.__call__@knob-block", "Optimize.step@self-calls",
+             "JacobianSolver.step@newton-step-block"]
 # take_best reloads a logged row (knob values AND active flags): which rows it may pick is decided under C15
 BORROW = [("C15", ["Optimize.step@start-row-block", "Optimize.step@take-best-block", "Optimize.reload@restore-block"])]
 RAC = "rac/c10.py"
@@ -11,8 +12,8 @@ RAC_MIN = {"quick": 519, "thorough": 519}      # fewer run-time evaluations than
 DESIGN_REF = "DESIGN.md section 4, C10"
 TECHNIQUE = 'contract-based deductive verification (pyvc: nonlinear real arithmetic loop invariants for _clip_to_max_steps, block contract on the limit loop of JacobianSolver.step, frame of the knob writers via a ghost write map; z3) + run-time contracts on generated problems (log rows, write trace, two-run comparison)'
 TRUSTED = ["floats are treated as reals (DESIGN 2.3(1)); every 'up to rounding' clause is run-time only", 'numpy-lite model of pyvc/num_engine.py (vectors as length + array, in-place scaling as a scalar factor, np.abs/argmin/all, zip/enumerate/range) and, for element-wise numpy code, the pointwise abstraction of pyvc/pointwise_engine.py', 'numpy / LAPACK / scipy themselves', 'z3 (NRA/LRA + quantifiers), cvc5']
-ASSUMPTIONS = ['x inside the limits at the entry of the limit block is the solver invariant (started inside; only moved by steps that passed the block)', "weights positive (Vary's constructor assert), max_step >= 0"]
+ASSUMPTIONS = ['Newton-step block: every numerical value is opaque and, inside the block, reads are functions of their operands (no collaborator is mutated between the statements of the block); SVD(...), .lstsq(...), ._clip_to_max_steps(...), .copy() are pure', 'x inside the limits at the entry of the limit block is the solver invariant (started inside; only moved by steps that passed the block)', "weights positive (Vary's constructor assert), max_step >= 0"]
 BOUNDED = ["'a disabled target has no influence on the steps' (relational, two runs), the bisection factor and the composition of the blocks inside JacobianSolver.step / Optimize.step, limits in the presence of rounding for non-unit weights: run-time only"]
-EXPLANATION = 'proved: _clip_to_max_steps returns lam*x_step with 0<=lam<=1 and weight*|step_i| <= max_step_i for every knob with a max_step; the limit loop of JacobianSolver.step leaves x - step inside the closed limits coordinate by coordinate (given x inside: solver invariant); _x_to_knobs/_knobs_to_x multiply/divide by the positive weight (so limits commute with the scaling); set_knobs_from_x and the knob loop of __call__ write exactly the active knobs, the latter raising before the offending knob is written when check_limits; every self-call in Optimize.step matches the real signatures (disable_target keyword)'
+EXPLANATION = 'proved: the Newton-step block of JacobianSolver.step computes exactly clip(scatter(zeros, mi, lstsq(SVD(jac[mo, :][:, mi]), y[mo]))) with mi = active knobs not frozen at a limit and mo = active targets -- a disabled target contributes neither a row of the Jacobian nor an entry of the residual, a masked knob gets a zero step, and max_step is applied to the full-length vector (matched to knobs by position); _clip_to_max_steps returns lam*x_step with 0<=lam<=1 and weight*|step_i| <= max_step_i for every knob with a max_step; the limit loop of JacobianSolver.step leaves x - step inside the closed limits coordinate by coordinate (given x inside: solver invariant); _x_to_knobs/_knobs_to_x multiply/divide by the positive weight (so limits commute with the scaling); set_knobs_from_x and the knob loop of __call__ write exactly the active knobs, the latter raising before the offending knob is written when check_limits; every self-call in Optimize.step matches the real signatures (disable_target keyword)'
 LEVEL_TEXT = "Mixed: the functions and blocks listed under `functions` are proved (every obligation discharged from the real source on every run); the clauses listed under `bounded` are run-time contract checks on generated problems. Never claimed as proof."
 LEVEL_NOTE = "See TRUSTED / BOUNDED / ASSUMPTIONS in the evidence file."
